@@ -18,7 +18,7 @@ def gen(tier, rng, shard, nshards):
                 "rhs": S.pick(rng, ["generic", "generic", "eigvec", "few-eigvecs"]), "x0": S.pick(rng, ["none", "none", "zero", "random"]),
                 "tol": float(S.pick(rng, [1e-12, 1e-12, 1e-8, 1e-6])), "via": S.pick(rng, ["gmres", "gmres", "inv"]),
                 "ms": S.pick(rng, ["sweep", "sweep", "beyond"]), "wide_rhs": bool(rng.random() < 0.2),
-                "colscale": S.pick(rng, [None, None, None, "tiny", "mixed"])}
+                "colscale": S.pick(rng, [None, None, None, "tiny", "mixed"]), "opscale": float(S.pick(rng, [1.0, 1.0, 1.0, 1e-9, 1e9]))}
         if rng.random() < 0.15:
             # right-hand-side columns living in two invariant subspaces on which the operator acts at very different scales
             # (every column sees one scale only, but the columns of one call see different ones)
@@ -85,7 +85,7 @@ def build(case):
                 i += 1
         M = V @ Bk @ np.linalg.inv(V)
         evecs = None
-    M = M.astype(P.DT[dt])
+    M = (M * case.get("opscale", 1.0)).astype(P.DT[dt])  # the routines are scale invariant: operators in tiny / huge units
     cols = max(case["cols"], 1)
     degree = None
     LAST.clear()
